@@ -13,7 +13,7 @@ RULE = ("requests `enc (int|float <size> <encoding> <byteOrder> (- ())) <packet>
         "128 x {unsigned, signed, twosComplement} x both byte orders x offsets 0..7 x patterns {zeros, ones, sign bit "
         "only, alternating, random}; floats: every binary16 exponent field, stratified binary32/64 (zeros, subnormal "
         "extremes, normal extremes, infinities, quiet/signalling NaNs), exhaustive 2^16 binary16 in thorough, "
-        "MIL-1750A boundary mantissas/exponents; non-trivial = in-domain read (field inside the packet); distinct = "
+        "MIL-1750A boundary mantissas/exponents, both accepted alias spellings (`IEEE-754`, `MIL-1750A`); non-trivial = in-domain read (field inside the packet); distinct = "
         "distinct request line")
 ASSUMPTIONS = ["struct.unpack of a binary16/32/64 pattern yields the IEEE value of the pattern (CPython; validated on every "
                "pattern class, all 2^16 binary16 patterns in the thorough tier); every NaN is one token"]
@@ -80,7 +80,7 @@ def generate(rng, tier):
         for pat in sorted(pats):
             if tier == "quick" and rng.random() < 0.5 and w != 16:
                 continue
-            yield from fl(w, pat, rng.choice(["IEEE754", "IEEE754_1985"]), f"ieee{w}")
+            yield from fl(w, pat, rng.choice(["IEEE754", "IEEE754_1985", "IEEE-754"]), f"ieee{w}")
     if tier == "thorough":
         for pat in range(1 << 16):
             b = pat.to_bytes(2, "big")
@@ -90,7 +90,7 @@ def generate(rng, tier):
     expos = [0, 1, 0x7F, 0x80, 0xFF, 23, 24] + [rng.getrandbits(8) for _ in range(4)]
     for m in mants:
         for e in expos:
-            yield from fl(32, (m << 8) | e, "MILSTD_1750A", "mil1750a")
+            yield from fl(32, (m << 8) | e, rng.choice(["MILSTD_1750A", "MILSTD_1750A", "MIL-1750A"]), "mil1750a")
 
 
 def impl(line):
@@ -150,7 +150,7 @@ def oracle(line, out):
         return out == f"ok IntP i{v} i{v} {pos + n}"
     b = v.to_bytes(n // 8, "big")
     pat = int.from_bytes(b, "little" if bo == LSB else "big")
-    if encoding == "MILSTD_1750A":
+    if encoding in ("MILSTD_1750A", "MIL-1750A"):      # the constructor accepts the alias spelling (with a warning)
         e = pat & 0xFF; m = pat >> 8
         e = e - 256 if e >= 128 else e
         m = m - (1 << 24) if m >= 1 << 23 else m
